@@ -80,6 +80,14 @@ class G:
     def mk(self, mod, res, inert=False):
         return {"cb": cb_rule, "flow": flow_rule, "hot": hot_rule}[mod](self.rng, self.rid(), res, inert)
 
+    @staticmethod
+    def is_inert(mod, r):
+        if mod == "cb":
+            return r[2] == 2 and r[8] >= BIG
+        if mod == "flow":
+            return r[2] == 0 and r[3] == 0 and r[4] >= BIG
+        return r[5] >= BIG and (r[10] != 2 or r[12] >= BIG)
+
     def inert_variant(self, mod, r):
         """`r` with another (never-refusing) threshold: stat-reusable with `r`, not equal"""
         r2 = list(r)
@@ -135,6 +143,16 @@ class G:
                 f = rng.choice(sorted(dom))
                 vals = [v for v in dom[f] if v != r[f]]
                 r[f] = rng.choice(vals)
+            elif k < 0.57 and any(self.is_inert(mod, r) for r in new):
+                # modify a never-refusing rule (it stays never-refusing and stat-reusable): the resource's other rules are unchanged
+                i = rng.choice([j for j, r in enumerate(new) if self.is_inert(mod, r)])
+                if mod == "cb":
+                    f = rng.choice([3, 4, 9])
+                    new[i][f] = rng.choice([v for v in {3: [1, 500, 3000, 60000], 4: [0, 1, 2, 5], 9: [0, 1, 2, 3]}[f] if v != new[i][f]])
+                elif mod == "flow":
+                    new[i][4] += rng.choice([1, 2])
+                else:
+                    new[i][5] += rng.choice([1, 2])
             elif k < 0.62 and new:         # duplicate a rule (next to it or at the end)
                 i = rng.randrange(len(new))
                 new.insert(rng.choice([i, i + 1, len(new)]), list(new[i]))
@@ -256,6 +274,33 @@ def gen_warm(rng, cid):
     return Case(cid, A + ["phase B"], tags=("warm-slice",))
 
 
+def gen_order(rng, cid):
+    """three or more stat-compatible breakers on one resource, one of them never-refusing; the last one is open; the reload
+    modifies only the never-refusing one (retry / min request / probe): which candidate its statistic comes from depends on
+    the order in which the builder keeps the remaining candidates"""
+    g = G(rng)
+    now = T0 + rng.randint(0, 10 ** 6)
+    stativ, buckets = rng.choice([1000, 2000, 10000]), rng.choice([0, 1, 2])
+    def mk(thr, minreq, retry):
+        return [g.rid(), 1, 2, retry, minreq, stativ, buckets, 0, thr, rng.choice([0, 1])]
+    a = mk(rng.choice([3, 5]), rng.choice([1, 5]), 3000)
+    i1 = mk(BIG, 1, 1000)
+    c = mk(1, rng.choice([0, 1]), 60000)
+    rules = rng.choice([[a, i1, c], [a, i1, mk(2, 1, 60000), c], [i1, a, c], [a, c, i1]])
+    A = [f"t {now}", f"cb.load {enc(rules)}", "e 1 1"]
+    now += rng.choice([1, 10])
+    A += [f"t {now}", "e 1 0"]
+    i2 = list(i1)
+    f = rng.choice([3, 4, 9])
+    i2[f] = {3: 500, 4: 2, 9: 3}[f]
+    new = [i2 if r is i1 else r for r in rules]
+    A.append(f"cb.reload {enc(new)}" if rng.random() < 0.5 else f"cb.reloadres 1 {enc(new)}")
+    for _ in range(rng.randint(1, 4)):
+        now += rng.choice([0, 1, 100, 3000])
+        A += [f"t {now}", f"e 1 {rng.choice([0, 1])}"]
+    return Case(cid, A + ["phase B"], tags=("order-slice",))
+
+
 def gen_conc(rng, cid):
     """hotspot concurrency rule with calls in flight across a reload that leaves the rule unchanged (nil items: stat-reuse
     path), modifies a field its decisions never look at (BurstCount / MaxQueueingTimeMs), or modifies the threshold"""
@@ -301,6 +346,8 @@ def gen(ctx, n):
     for i in range(n):
         if i % 25 == 3:
             out.append(gen_conc(ctx.rng, f"c{ctx.seed}-{i}"))
+        elif i % 50 == 11:
+            out.append(gen_order(ctx.rng, f"o{ctx.seed}-{i}"))
         elif i % 25 == 7:
             out.append(gen_steal(ctx.rng, f"k{ctx.seed}-{i}"))
         elif i % 25 == 16:
